@@ -78,7 +78,10 @@ def gen_scenario(rng, sid):
           # how the dataset is ADDRESSED by the append (absolute path / relative to the working directory / './' / 'file://' URL) and
           # what open_with is: the recorder's plain callables, or the bound open() of an fsspec file system object
           "addr": rng.choice(["abs", "abs", "rel", "dot", "url"]), "opener": rng.choice(["callable", "fs"])}
-    for _ in range(rng.choice([0, 0, 1, 2])):          # earlier successful appends: part numbers beyond the first write's
+    # EMPTY base datasets (zero row groups): created from a 0-row frame, or emptied by remove_row_groups - _metadata then references
+    # nothing, and whatever an interrupted append leaves in the directory must stay invisible
+    sc["empty_base"] = rng.choice([None, None, None, "zero_frame", "emptied"])
+    for _ in range(0 if sc["empty_base"] else rng.choice([0, 0, 1, 2])):          # earlier successful appends: part numbers beyond the first write's
         m = rng.choice([1, 2, 4])
         sc["prior"].append({"frame": make_frame(cols, m, rng, kvals, jvals), "offsets": offsets(m, min(m, rng.choice([1, 2])))})
     return sc
@@ -117,7 +120,7 @@ def do_write(root, sc, frame, offs, append, rec=None):
         else:
             target = root
         write(target, to_df(frame, sc["columns"]), file_scheme="hive", partition_on=list(sc["partition_on"]),
-              row_group_offsets=list(offs), append=append, compression=sc["compression"], stats=sc["stats"], **kw)
+              row_group_offsets=(list(offs) if offs is not None else None), append=append, compression=sc["compression"], stats=sc["stats"], **kw)
     finally:
         os.chdir(cwd)
 
@@ -208,8 +211,17 @@ def run_scenario(arg):
         base = os.path.join(scratch, "s%d" % sc["id"])
         pristine, work, alone = (os.path.join(base, x) for x in ("pristine", "work", "alone"))
         os.makedirs(base)
-        do_write(pristine, sc, sc["frame0"], sc["offsets0"], False)
+        if sc.get("empty_base") == "zero_frame":
+            do_write(pristine, sc, {c: [] for c in sc["columns"]}, None, False)      # (0 rows with explicit offsets [0] crash the unchanged tree's write_multi: notes)
+        else:
+            do_write(pristine, sc, sc["frame0"], sc["offsets0"], False)
+            if sc.get("empty_base") == "emptied":
+                from fastparquet import ParquetFile
+                pfe = ParquetFile(pristine)
+                pfe.remove_row_groups(pfe.row_groups)
         pf0, old_vals = fresh_read(pristine)
+        if sc.get("empty_base") and (len(pf0.row_groups) or (old_vals and len(old_vals[0][1]))):
+            raise RuntimeError("harness: the base dataset should be empty")
         for i, pr in enumerate(sc["prior"]):
             # the earlier appends are appends under test, too (fault-free): each must add exactly its rows
             al = os.path.join(base, "alone%d" % i)
@@ -232,7 +244,9 @@ def run_scenario(arg):
         refs = dsfs.refs_of(pf0)
         do_write(alone, sc, sc["frame1"], sc["offsets1"], False)
         _, new_vals = fresh_read(alone)
-        want_new = dsfs.cat_values(old_vals, new_vals)
+        empty = bool(sc.get("empty_base"))
+        # (an empty partitioned dataset reads without its partition columns: it is compared by its number of rows, 0)
+        want_new = new_vals if empty else dsfs.cat_values(old_vals, new_vals)
         snap0 = dsfs.snapshot(pristine)
         out.update(refs=refs, nold=len(old_vals[0][1]), nnew=len(new_vals[0][1]), files0=sorted(snap0))
 
@@ -302,7 +316,8 @@ def run_scenario(arg):
                 st, val = dsfs.guarded(reader, READ_TIMEOUT)
                 if st == "ok":
                     vals, refs_after, read_opens = val
-                    r["read"] = "old" if vals == old_vals else ("new" if vals == want_new else "other")
+                    nrows_ = len(vals[0][1]) if vals else 0
+                    r["read"] = "old" if (vals == old_vals or (empty and nrows_ == 0)) else ("new" if vals == want_new else "other")
                     if r["read"] == "other":
                         r["read_detail"] = {"rows": len(vals[0][1]) if vals else 0, "refs": refs_after[-6:]}
                     r["read_opens"] = read_opens
@@ -478,6 +493,7 @@ def run(ctx):
                          sf["rows_expected"], sf["read_detail"] or ""))
             continue
         ctx.count("addressing", "%s/%s" % (sc.get("addr", "abs"), sc.get("opener", "callable")))
+        ctx.count("base_dataset", sc.get("empty_base") or "non-empty")
         ctx.count("partition_columns", len(sc["partition_on"]))
         ctx.count("new_row_groups", sc["new_parts"])
         ctx.count("prior_appends", len(sc["prior"]))
